@@ -38,6 +38,7 @@ type (
 	SessionStore struct {
 		key   string
 		value string
+		seq   uint64
 	}
 )
 
@@ -57,11 +58,20 @@ func (sm *SessionManager) close() {
 }
 
 func (sm *SessionManager) doStore() {
+	// number of the newest request written per client id
+	written := make(map[string]uint64)
 	for {
 		select {
 		case <-sm.done:
 			return
 		case kv := <-sm.storeCh:
+			// requests arrive through one goroutine each and not necessarily in the order they
+			// were made: an older state of a session must not overwrite a newer one.
+			if kv.seq < written[kv.key] {
+				logger.SpanDebugf(nil, "session manager skips outdated store request of session %v", kv.key)
+				continue
+			}
+			written[kv.key] = kv.seq
 			logger.SpanDebugf(nil, "session manager store session %v", kv.key)
 			err := sm.store.put(sessionStoreKey(kv.key), kv.value)
 			if err != nil {
